@@ -210,7 +210,14 @@ def _r2(ctx, pkg):
     for u, (cache, arg) in ups:
         side = "reactants" if cache == "_reactants" else "products"
         good = good and any(x == ("attr", reac, side) for x in walk(arg)) and {(simp(g), p) for g, p in u.guards} == {(simp(g), p) for g, p in a.guards}
-    ctx.check(good, "R2", "_add_reaction:cache update", (NF, ups[0][0].line if ups else fn.lineno), "_reactants/_products receive the species of exactly the appended reaction, on the same path")
+    # the caches are written in some other way (element-wise add in a loop, ..): not understood, no verdict
+    other = [f for f in fl.facts if not any(f is u for u, _ in ups) and
+             ((f.kind == "call" and f.value and f.value[0] == "meth" and f.value[1][0] == "attr" and f.value[1][1] == SELF and f.value[1][2] in CACHES) or
+              (f.kind == "attrstore" and f.target in CACHES and f.extra.get("obj") == SELF))]
+    if not good and other:
+        ctx.unrec("R2", "_add_reaction:cache update", (NF, other[0].line), f"the cached sets are maintained in a way that is not understood ({other[0].kind} {other[0].target})")
+    else:
+        ctx.check(good, "R2", "_add_reaction:cache update", (NF, ups[0][0].line if ups else fn.lineno), "_reactants/_products receive the species of exactly the appended reaction, on the same path")
     # setter
     st = pkg.cls("Network").methods.get("allowed_species.setter")
     if st is None:
